@@ -553,44 +553,67 @@ def translate_function(file, qualname, leanname):
 
 
 def translate_wire_method(file, clsname, methname, leanname, result_attr):
-    """`Wire.put` / `Wire.prepare`: methods that compute `self.<result_attr> = f(self.width, val)`.
-       Generated: def leanname (a_width : Int) (p_val : Int) : Int := <value assigned to result_attr>"""
+    """`Wire.put` / `Wire.prepare`: methods whose effect is `self.<result_attr> = f(self.width, val)`.
+       The test `self in Wire.prepared` (the "already prepared" branch of prepare) becomes the Int parameter
+       `p_already` (1 = the wire is already in the prepared list), so code placed in that branch is translated too.
+       Generated: def leanname (a_width : Int) (p_already : Int)? (p_val : Int) : Int := value finally stored in result_attr"""
     path = os.path.join(REPO, file)
     src = open(path).read()
     tree = ast.parse(src)
     cls = find_class(tree, clsname)
     meth = [m for m in cls.body if isinstance(m, ast.FunctionDef) and m.name == methname][0]
-    tr = MethodTranslator(file, cls, meth, src)
+    meth = ast.parse(ast.get_source_segment(src, meth).replace('\r', '')).body[0] if False else meth
+    import copy
+    m2 = copy.deepcopy(meth)
+    uses_already = [False]
+
+    class Rw(ast.NodeTransformer):
+        def visit_Compare(self, n):
+            if len(n.ops) == 1 and isinstance(n.ops[0], ast.In) and 'prepared' in ast.unparse(n.comparators[0]) \
+                    and isinstance(n.left, ast.Name) and n.left.id == 'self':
+                uses_already[0] = True
+                return ast.copy_location(ast.Compare(left=ast.Name(id='already', ctx=ast.Load()), ops=[ast.NotEq()],
+                                                     comparators=[ast.Constant(value=0)]), n)
+            return self.generic_visit(n)
+
+        def visit_Assign(self, n):
+            t = n.targets[0]
+            if MethodTranslator._is_self_attr(t) and t.attr == result_attr:
+                return ast.copy_location(ast.Assign(targets=[ast.Name(id='res_', ctx=ast.Store())], value=n.value), n)
+            return self.generic_visit(n)
+
+        def visit_Return(self, n):
+            if n.value is None:
+                return ast.copy_location(ast.Return(value=ast.Name(id='res_', ctx=ast.Load())), n)
+            return n
+
+        def visit_Expr(self, n):
+            if 'prepared.append' in ast.unparse(n):
+                return None
+            return n
+    m2 = Rw().visit(m2)
+    ast.fix_missing_locations(m2)
+    tr = MethodTranslator(file, cls, m2, src)
     tr.is_function = True
-    tr.params = [a.arg for a in meth.args.args if a.arg != 'self']
+    tr.params = [a.arg for a in meth.args.args if a.arg != 'self'] + (['already'] if uses_already[0] else [])
     tr.locals = [l for l in tr.locals if l not in tr.params]
-    L = [f'/- generated from {file}:{meth.lineno}  {clsname}.{methname} (value stored in self.{result_attr}) -/']
-    body = []
-    found = False
-    for s in meth.body:
-        # skip the "already prepared" warning and the bookkeeping append
-        if isinstance(s, ast.If) and 'prepared' in ast.unparse(s.test):
-            continue
-        if isinstance(s, ast.Expr) and 'prepared.append' in ast.unparse(s):
-            continue
-        if isinstance(s, ast.Assign) and MethodTranslator._is_self_attr(s.targets[0]) \
-                and s.targets[0].attr == result_attr:
-            body.append(f'  return {tr.as_int(s.value)}')
-            found = True
-            break
-        body += tr.stmt(s, '  ')
-    if not found:
+    if 'res_' not in tr.locals:
         raise Untranslatable(file, meth.lineno, f'{clsname}.{methname} does not assign self.{result_attr}')
+    body = tr.stmts(m2.body, '  ')
     cfgs = sorted(tr.cfg)
+    params = (['already'] if uses_already[0] else []) + [a.arg for a in meth.args.args if a.arg != 'self']
+    L = [f'/- generated from {file}:{meth.lineno}  {clsname}.{methname} (value stored in self.{result_attr}; '
+         f'p_already = `self in Wire.prepared`) -/']
     L.append(f'def {leanname} ' + ' '.join(f'({k} : Int)' for k in cfgs) + ' '
-             + ' '.join(f'(p_{p} : Int)' for p in tr.params) + ' : Int := Id.run do')
-    for p in tr.params:
-        L.append(f'  let mut lv_{p} := p_{p}')
+             + ' '.join(f'(p_{p} : Int)' for p in params) + ' : Int := Id.run do')
+    for p_ in params:
+        L.append(f'  let mut lv_{p_} := p_{p_}')
     for k in tr.locals:
         L.append(f'  let mut lv_{k} : Int := 0')
     L += body
+    L.append('  return lv_res_')
     txt = '\n'.join(L).replace('c_.', '')
-    meta = dict(file=file, cls=clsname, method=methname, lean=leanname, cfg=cfgs, params=tr.params, line=meth.lineno,
+    meta = dict(file=file, cls=clsname, method=methname, lean=leanname, cfg=cfgs, params=params, line=meth.lineno,
                 src_sha=hashlib.sha256(ast.get_source_segment(src, meth).encode()).hexdigest()[:16])
     return txt, meta
 
